@@ -486,6 +486,11 @@ def gen_simple(rng, tier):
         for n in (range(94, 114) if big else range(98, 110)):
             out.append(Case(f'{kind} 2 2 ; t0 ; t0 ; t0 ; ' + ' ; '.join(['t1'] * n) + ' ; t0 ; t0 ; t0 ; ' + ' ; '.join(['t1'] * 6 + ['t0'] * 5 + ['t1'] * 6),
                             'd_ssp' if kind == 'ssp' else 'd_slp', (kind, 'slow-export-handover-around-yield')))
+            # ... and the first thread comes back for its second call while the waiter, having got the lock k steps after the
+            # hand-over, is still inside Export: whoever holds the lock must have SET it
+            for k in (1, 2, 3):
+                out.append(Case(f'{kind} 2 2 ; t0 ; t0 ; t0 ; ' + ' ; '.join(['t1'] * n) + ' ; t0 ; t0 ; t0 ; ' + ' ; '.join(['t1'] * k + ['t0'] * 6 + ['t1'] * 8 + ['t0'] * 4),
+                                'd_ssp' if kind == 'ssp' else 'd_slp', (kind, 'slow-export-handover-then-relock')))
     return out
 
 
